@@ -185,7 +185,7 @@ def gen_cases(ctx, module, which, shards, cfg=None):
         o, _, _ = run_tlc(ctx, module, cfg, env={"WHICH": which, "TIER": ctx.tier, "SHARD": k, "NSHARDS": shards,
                                                  "OUT": outs[k]}, timeout=1500)
         return o
-    with ThreadPoolExecutor(max_workers=min(shards, 10)) as ex:
+    with ThreadPoolExecutor(max_workers=min(shards, 16)) as ex:
         list(ex.map(one, range(shards)))
     allp = ctx.path("cases-%s.ndjson" % which)
     with open(allp, "w") as w:
@@ -652,7 +652,7 @@ def replay_tz(ctx, rp):
 TEXT = {
     # pid: scenario of the random recorder, generator shards, random events quick/thorough
     "C11": dict(scen="text11", gshards=8, ev=(60000, 600000)),
-    "C12": dict(scen="text12", gshards=8, ev=(40000, 400000)),
+    "C12": dict(scen="text12", gshards=16, ev=(40000, 400000)),
     "C13": dict(scen="text13", gshards=8, ev=(40000, 400000)),
     "C20": dict(scen="text20", gshards=4, ev=(40000, 400000)),
 }
